@@ -47,7 +47,7 @@ fn by_index(d: &B, far: bool) {
         while k <= n + 1 {
             if idx == k {
                 let want = if root.kind == K_ARR && k < root.cnt { Some(root.kids[k]) } else { None };
-                expect_sub(get_by_index(d.bytes(), idx), d, want);
+                expect_sub(get_by_index(d.bytes(), k), d, want);
             }
             k += 1;
         }
@@ -314,7 +314,7 @@ fn split_i32(lo: i32, hi: i32, f: impl Fn(i32)) {
     let mut v = lo;
     while v <= hi {
         if i == v {
-            f(i);
+            f(v); // the concrete loop value, so that the argument is a constant on this path
         }
         v += 1;
     }
